@@ -440,8 +440,12 @@ tested:
 				again++
 			}
 		}
+		if again == 0 {
+			transient(r, "refused operator-input trace (%s): %v", aspect, labels[i])
+			continue
+		}
 		if again < 2 {
-			r.Inconclusive("refused operator-input trace did not reproduce (%s): %v", aspect, labels[i])
+			r.Inconclusive("refused operator-input trace reproduced only once (%s): %v", aspect, labels[i])
 			continue
 		}
 		seen[aspect] = true
